@@ -1,4 +1,6 @@
 import Dtr.Proofs.ParserBlocks
+import Dtr.Proofs.ParserFuel
+import Dtr.Proofs.Spans
 /-!
 # C09 — parsing is total: any text gives a test or a located error, never a panic
 -/
@@ -44,8 +46,8 @@ theorem C09_body_no_panic (hdr : List String) (line fuel : Nat) (atoks : List AT
   exact this
 
 /-- **Parsing any string never panics**: `ParsedTestCase::parse` returns a parsed test, a parse
-error, or (in the model only) "out of fuel" — never a panic.  (That the fuel `parseFuel` is always
-enough is checked by the correspondence run on every case; see the evidence.) -/
+error, or (in the model only) "out of fuel" — never a panic.  (`C09_terminates` below rules out
+"out of fuel".) -/
 theorem C09_no_panic (s : Str) (m : String) : parseTest s ≠ .panic m := by
   unfold parseTest
   cases hh : parseHeaderAll s with
@@ -67,5 +69,120 @@ theorem C09_header_total (s : Str) : (∃ names line off rest, parseHeaderAll s 
   cases h : parseHeaderAll s with
   | ok names line off rest => exact Or.inl ⟨names, line, off, rest, rfl⟩
   | err spans => exact Or.inr ⟨spans, rfl⟩
+
+/-- **Parsing terminates**: the recursion of the parser is bounded by the number of tokens, so the
+model never reports "out of fuel" — for every string `parseTest` is a parsed test or a parse error.
+(Header scanner and body lexer are structural recursions on the text, one character or more per
+step; the parser's fuel `parseFuel` bounds the *depth* of its recursion and is always enough.) -/
+theorem C09_terminates (s : Str) : parseTest s ≠ .fuel := by
+  unfold parseTest
+  cases hh : parseHeaderAll s with
+  | err spans => simp
+  | ok names line off rest =>
+    simp only
+    have := parseBody_gsat (names.map (·.1)) line ((lexBodyAll off rest).map absTok)
+    cases hp : parseBody (names.map (·.1)) line ((lexBodyAll off rest).map absTok) with
+    | ok b st => simp
+    | err t l => simp
+    | panic m => simp
+    | fuel => rw [hp] at this; exact this.elim
+
+/-- `parseTest` is total in the plain sense: a parsed test or an error, nothing else -/
+theorem C09_total (s : Str) : (∃ p, parseTest s = .ok p) ∨ ∃ tag spans, parseTest s = .err tag spans := by
+  cases h : parseTest s with
+  | ok p => exact Or.inl ⟨p, rfl⟩
+  | err t l => exact Or.inr ⟨t, l, rfl⟩
+  | panic m => exact absurd h (C09_no_panic s m)
+  | fuel => exact absurd h (C09_terminates s)
+
+/-- **Every location of a returned parse error lies in the source text on character boundaries**:
+both ends of every span are byte lengths of prefixes of the source made of whole characters
+(`IsBnd`, hence `≤` the length of the text), and no span runs backwards.  Covers the header's
+errors, every error of the body parser (token spans, ranges between two tokens, the end of input). -/
+theorem C09_error_spans_valid (s : Str) (tag : String) (spans : List (Nat × Nat))
+    (h : parseTest s = .err tag spans) : ∀ sp ∈ spans, SpanOK s sp := by
+  unfold parseTest at h
+  have hH := parseHeader_spans s (s.length + 1) [] s 1 [] rfl (by intro x hx; cases hx)
+  rw [utf8Len_nil] at hH
+  change HdrPost s (parseHeaderAll s) at hH
+  cases hh : parseHeaderAll s with
+  | err sp0 =>
+    rw [hh] at h hH
+    simp only [ParseOut.err.injEq] at h
+    obtain ⟨_, rfl⟩ := h
+    exact hH
+  | ok names line off rest =>
+    rw [hh] at h hH
+    simp only at h
+    obtain ⟨_, pre, hsrc, hoff⟩ := hH
+    subst hoff
+    have hg := parseBody_gsat (names.map (·.1)) line ((lexBodyAll (utf8Len pre) rest).map absTok)
+    cases hp : parseBody (names.map (·.1)) line ((lexBodyAll (utf8Len pre) rest).map absTok) with
+    | ok b st => rw [hp] at h; cases h
+    | panic m => rw [hp] at h; cases h
+    | fuel => rw [hp] at h; cases h
+    | err t l =>
+      rw [hp] at h hg
+      simp only [ParseOut.err.injEq] at h
+      obtain ⟨_, rfl⟩ := h
+      intro sp hsp
+      simp only [List.mem_map] at hsp
+      obtain ⟨loc, hl, rfl⟩ := hsp
+      have hok := hg loc hl
+      rw [List.length_map] at hok
+      cases loc with
+      | tok i => exact tokSpan_ok s pre rest hsrc i hok
+      | range i j => exact tokSpan_range s pre rest hsrc i j hok.1 hok.2
+      | inputEnd => exact ⟨isBnd_len s, isBnd_len s, Nat.le_refl _⟩
+
+/-- the spans a *successful* parse records — header names, first `C` of a column, first read of a
+name, `declare` statements — are usable too (they are what a later binding error points at) -/
+theorem C09_parsed_spans_valid (s : Str) (p : Parsed) (h : parseTest s = .ok p) :
+    (∀ sp ∈ p.sigSpans, SpanOK s sp) ∧ (∀ x ∈ p.expIn, SpanOK s x.2) ∧ (∀ x ∈ p.reads, SpanOK s x.2) ∧
+    (∀ x ∈ p.virt, SpanOK s x.2.1) := by
+  unfold parseTest at h
+  have hH := parseHeader_spans s (s.length + 1) [] s 1 [] rfl (by intro x hx; cases hx)
+  rw [utf8Len_nil] at hH
+  change HdrPost s (parseHeaderAll s) at hH
+  cases hh : parseHeaderAll s with
+  | err sp0 => rw [hh] at h; cases h
+  | ok names line off rest =>
+    rw [hh] at h hH
+    simp only at h
+    obtain ⟨hnames, pre, hsrc, hoff⟩ := hH
+    subst hoff
+    have hg := parseBody_gsat (names.map (·.1)) line ((lexBodyAll (utf8Len pre) rest).map absTok)
+    cases hp : parseBody (names.map (·.1)) line ((lexBodyAll (utf8Len pre) rest).map absTok) with
+    | err t l => rw [hp] at h; cases h
+    | panic m => rw [hp] at h; cases h
+    | fuel => rw [hp] at h; cases h
+    | ok b st =>
+      rw [hp] at h hg
+      simp only [ParseOut.ok.injEq] at h
+      subst h
+      have hG : G _ 0 st := hg
+      rw [List.length_map] at hG
+      refine ⟨?_, ?_, ?_, ?_⟩
+      · intro sp hsp
+        simp only [List.mem_map] at hsp
+        obtain ⟨x, hx, rfl⟩ := hsp
+        exact hnames x hx
+      · intro x hx
+        simp only [List.mem_map] at hx
+        obtain ⟨⟨n, i⟩, hr, rfl⟩ := hx
+        exact tokSpan_ok s pre rest hsrc i (hG.expIn _ hr)
+      · intro x hx
+        simp only [List.mem_map] at hx
+        obtain ⟨⟨n, i⟩, hr, rfl⟩ := hx
+        exact tokSpan_ok s pre rest hsrc i (hG.reads _ hr)
+      · intro x hx
+        simp only [List.mem_map] at hx
+        obtain ⟨⟨n, ⟨i, j⟩, e⟩, hr, rfl⟩ := hx
+        have := hG.virt _ hr
+        exact tokSpan_range s pre rest hsrc i j this.1 this.2
+
+/-- the hypothesis is met: an error behind multi-byte characters (`ü` occupies bytes 7 and 8) -/
+example : (match parseTest ['é',' ','A','\n','1',' ','ü',' ','2','\n'] with
+    | .err _ sp => sp == [(7, 9)] | _ => false) = true := by decide +kernel
 
 end Dtr
